@@ -401,6 +401,9 @@ def main : IO Unit := do
         fu (Gen.Fn.str_extend_strs (cs.map Str.encChar) (t, t.length)) ++ "|" ++ fu (Gen.Fn.str_from_str_in (Str.encode cs) (t, t.length)),
       showO (Outcome.ok (Str.extendChars t cs)) ++ "|" ++ showO (Outcome.ok (Str.fromIter cs)) ++ "|" ++
         showO (Outcome.ok (Str.extendStrs t (cs.map Str.encChar))) ++ "|" ++ showO (Outcome.ok (Str.encode cs))))) out
+  let u16s : List (List Nat) := [[], [0x41], [0x41, 0xD834, 0xDD1E, 0x6D], [0xD834], [0xDD1E, 0x41], [0xD834, 0x41], [0xD834, 0xD834, 0xDD1E], [0xFFFF, 0xD7FF, 0xE000], [0xDBFF, 0xDFFF]]
+  out := add (firstDiff "String::from_utf16_in" (u16s.map fun us =>
+    (s!"units={repr us}", fu (Gen.Fn.str_from_utf16_in us (([] : List UInt8), 0)), showO (Str.fromUtf16 us)))) out
   -- boxed.rs step sequences
   let cells : List (List Bx.Cell) := [[], [⟨1, 10⟩], [⟨1, 10⟩, ⟨2, 20⟩, ⟨3, 30⟩]]
   let fx0 : Bx.Fx := {}
